@@ -741,10 +741,12 @@ Section DeathTrace.
     eapply good_after; [apply srel_lrel; exact SR|].
     pose proof (execute_queue_good fuel s1 false) as HQ.
     destruct (execute_queue cfg fuel s1 false) as [s6|s6|s6|]; cbn [good] in *; auto; try (apply lrel_weaken; exact HQ).
-    destruct (death_check cfg fuel (emit s6 [VPhase2End]) true) as [s8|] eqn:ED; cbn [good]; auto.
+    destruct (run_slot cfg fuel s6 LPhase2 (active_id s6) (active_id s6)) as [s6'|] eqn:ER2; cbn [good]; auto.
+    destruct (death_check cfg fuel (emit s6' [VPhase2End]) true) as [s8|] eqn:ED; cbn [good]; auto.
     eapply good_after; [|apply exit_check_good].
     eapply lrel_trans; [apply lrel_weaken; exact HQ|].
-    eapply lrel_trans; [apply srel_lrel; apply (srel_emit_neutral s6 [VPhase2End]); reflexivity|].
+    eapply lrel_trans; [apply srel_lrel; eapply srel_run_slot; exact ER2|].
+    eapply lrel_trans; [apply srel_lrel; apply (srel_emit_neutral s6' [VPhase2End]); reflexivity|].
     eapply lrel_trans; [eapply death_check_rel; exact ED|].
     apply srel_lrel. apply srel_turnend.
   Qed.
@@ -798,10 +800,11 @@ Section DeathTrace.
     assert (Hn1 : NoDup (turn_ids s1)) by (destruct S1 as (? & _ & _ & _ & _ & U & _); apply U; exact Hn).
     assert (Hid1 : In id (turn_ids s1)) by exact Hid.
     eapply good_after; [apply srel_lrel; exact S1|].
-    set (s2 := emit s1 [VPhase1Start]).
+    destruct (run_slot cfg fuel (emit s1 [VPhase1Start]) LPhase1 id id) as [s2|] eqn:ER1; cbn [good]; auto.
     destruct (death_check cfg fuel s2 false) as [s3|] eqn:ED; cbn [good]; auto.
     assert (L13 : lrel false s1 s3).
     { eapply lrel_trans; [apply srel_lrel; apply (srel_emit_neutral s1 [VPhase1Start]); reflexivity|].
+      eapply lrel_trans; [apply srel_lrel; eapply srel_run_slot; exact ER1|].
       eapply death_check_rel. exact ED. }
     destruct (has_flag s3 id [FLAG_DISABLE_ACTION]).
     { eapply good_after; [apply lrel_weaken; exact L13|apply phase2_good]. }
